@@ -35,9 +35,39 @@ def _sum_by(pairs):
     return list(d.items())
 
 
-def check_state(part, db, s, hist_desc, hist_expr):
+def _history_categories(h, negate=False):
+    """(categories of the operands, category -> exponent summed over the operands): what the history implies,
+    independent of what the result says of itself"""
+    i0, rec = algebra._first(h[0])
+    d = {BASIS[i0][0]: -1 if rec else 1}
+    for op, i in h[1:]:
+        c = BASIS[i][0]
+        d[c] = d.get(c, 0) + (1 if op == "*" else -1)
+    return {c: (-e if negate else e) for c, e in d.items()}
+
+
+def check_state(part, db, s, hist_desc, hist_expr, want_categories=None):
     q = s.GetQuantity()
     comp = [(c, u, e) for c, (u, e) in q.GetCategoryToUnitAndExps().items()]
+    if want_categories is not None:
+        # the factors listed are the operands' categories (never a category of some other quantity built before),
+        # and per quantity type their exponents add up to what the operands imply (categories of one quantity
+        # type cancel against each other: length / depth is dimensionless)
+        part.count("evaluations")
+        foreign = [c for c, _u, _e in comp if c not in want_categories]
+        own, want = {}, {}
+        for c, _u, e in comp:
+            t = db.GetCategoryQuantityType(c)
+            own[t] = own.get(t, 0) + e
+        for c, e in want_categories.items():
+            t = db.GetCategoryQuantityType(c)
+            want[t] = want.get(t, 0) + e
+        own = {t: e for t, e in own.items() if e}
+        want = {t: e for t, e in want.items() if e}
+        if foreign or own != want:
+            part.violation("C20:factors:" + hist_desc, {"category": q.GetCategory(), "composing_map_of_the_result": comp, "categories_and_exponents_of_the_operands": sorted(want_categories.items()), "categories_not_among_the_operands": foreign},
+                           "from mc import worlds\nfrom barril.units import Scalar\nwith worlds.world('posc') as db:\n    q = (%s).GetQuantity()\n    print(q.GetCategory(), q.GetCategoryToUnitAndExps())\n"
+                           "    assert all(c in %r for c in q.GetCategoryToUnitAndExps()), q.GetCategory()\n" % (hist_expr, sorted(want_categories)))
     if not comp:
         return
     simple = len(comp) == 1 and comp[0][2] == 1
@@ -91,6 +121,49 @@ def check_state(part, db, s, hist_desc, hist_expr):
         Array(q, [3.0]).GetFormattedSuffix("qq")
 
 
+def _render_simple(part, db, when):
+    """Every table unit as a simple quantity renders all its strings (judged: they are the registered ones)."""
+    for u, info in db.unit_to_unit_info.items():
+        qt = info.quantity_type
+        for c in [db.GetDefaultCategory(u)] + ([qt] if db.IsValidCategory(qt) else []):
+            if not c:
+                continue
+            part.count("evaluations")
+            try:
+                q0 = ObtainQuantity(u, c)
+                got = (q0.GetUnit(), q0.GetCategory(), q0.GetQuantityType(), q0.GetUnitName())
+                texts = (str(Scalar(q0, 1.0)), repr(Scalar(q0, 1.0)), str(Array(q0, [1.0])))
+            except Exception as e:
+                part.violation("C20:simple %s:%s:%s:raised" % (when, u, c), {"error": repr(e)})
+                continue
+            want = (u, c, qt, db.GetUnitName(qt, u))
+            if got != want or texts[0] != "1 [%s]" % u or ("'%s'" % u) not in texts[1] or not texts[2].endswith(" [%s]" % u):
+                part.violation("C20:simple %s:%s:%s" % (when, u, c), {"unit_category_type_name": got, "registered": want, "texts": texts},
+                               "from mc import worlds\nfrom barril.units import Scalar, ObtainQuantity\nwith worlds.world('posc') as db:\n    d = Scalar(2.0, 'm', 'length') * Scalar(3.0, 'm', 'length')\n    d.GetQuantity().GetUnitName()\n"
+                               "    q = ObtainQuantity(%r, %r)\n    print(q.GetUnit(), q.GetCategory(), q.GetQuantityType(), q.GetUnitName())\n    assert q.GetUnitName() == db.GetUnitName(%r, %r)\n" % (u, c, qt, u))
+
+
+def _simple_first_task(depth):
+    """In a process in which nothing has been rendered yet: every simple table quantity first, the derived
+    quantities afterwards (the other order is the main run)."""
+    part = Part()
+    with worlds.world("posc") as db:
+        _render_simple(part, db, "in a fresh process")
+
+        def on_transition(parent, op, i, res, h):
+            if isinstance(res, Exception):
+                return  # judged by the main run
+            check_state(part, db, res, "after every simple quantity, in a fresh process: " + algebra.describe(h, BASIS, VALUES), algebra.expr(h, BASIS, VALUES), _history_categories(h))
+            part.count("states_after_simple_first")
+
+        algebra.explore(db, depth, BASIS, VALUES, on_transition=on_transition, reciprocals=True)
+    return part
+
+
+def _dispatch(task):
+    return _simple_first_task(task[1]) if task[0] == "simple first" else _simple_task(task[1])
+
+
 def _simple_task(qts):
     part = Part()
     with worlds.world("posc") as db:
@@ -107,6 +180,7 @@ def _simple_task(qts):
                     a = Array([1.5, 2.5], u, c)
                     ok = (
                         (q.GetUnit(), q.GetCategory(), q.GetQuantityType()) == (u, c, qt)
+                        and q.GetUnitName() == db.GetUnitName(qt, u)
                         and repr(s) == "Scalar(1.5, '%s', '%s')" % (u, c)
                         and str(s) == "1.5 [%s]" % u
                         and repr(a) == "Array(%s, [1.5, 2.5], %s)" % (qt, u)
@@ -126,7 +200,7 @@ def _simple_task(qts):
                     if not ok:
                         part.violation(
                             "C20:simple:%s:%s" % (u, c),
-                            {"quantity": (q.GetUnit(), q.GetCategory(), q.GetQuantityType()), "scalar": [repr(s), str(s)], "array": [repr(a), str(a)]},
+                            {"quantity": (q.GetUnit(), q.GetCategory(), q.GetQuantityType(), q.GetUnitName()), "registered_unit_name": db.GetUnitName(qt, u), "scalar": [repr(s), str(s)], "array": [repr(a), str(a)]},
                             "from mc import worlds\nfrom barril.units import Scalar, Array, ObtainQuantity\nwith worlds.world('posc') as db:\n"
                             "    q = ObtainQuantity(%r, %r); s = Scalar(1.5, %r, %r)\n    print(q.GetUnit(), q.GetCategory(), q.GetQuantityType(), repr(s), str(s))\n"
                             "    assert (q.GetUnit(), q.GetCategory(), q.GetQuantityType()) == (%r, %r, %r) and repr(s) == %r and str(s) == %r\n"
@@ -198,6 +272,10 @@ def _registration_strings(part, depth):
 def run(ctx):
     depth = 4 if ctx.thorough else 3
     part = ctx.part
+    # forked before this process has rendered anything
+    with worlds.world("posc") as db:
+        qts = sorted(db.GetQuantityTypes(), key=lambda q: -len(db.GetUnits(q)))
+    run_sharded(ctx, _dispatch, [("simple first", depth - 1)] + [("simple", qts[i::16]) for i in range(16)])
     with worlds.world("posc") as db:
         seen = {"n": 0}
 
@@ -205,14 +283,14 @@ def run(ctx):
             if isinstance(res, Exception):
                 part.violation("C20:raised:" + algebra.describe(h, BASIS, VALUES), {"error": repr(res)})
                 return
-            check_state(part, db, res, algebra.describe(h, BASIS, VALUES), algebra.expr(h, BASIS, VALUES))
+            check_state(part, db, res, algebra.describe(h, BASIS, VALUES), algebra.expr(h, BASIS, VALUES), _history_categories(h))
             # the reciprocal of every state (number on the left): pure reciprocals with several factors
             try:
                 rec = 1.0 / res
             except Exception as e:
                 part.violation("C20:raised:1.0 / (%s)" % algebra.describe(h, BASIS, VALUES), {"error": repr(e)})
             else:
-                check_state(part, db, rec, "1.0 / (%s)" % algebra.describe(h, BASIS, VALUES), "(1.0 / %s)" % algebra.expr(h, BASIS, VALUES))
+                check_state(part, db, rec, "1.0 / (%s)" % algebra.describe(h, BASIS, VALUES), "(1.0 / %s)" % algebra.expr(h, BASIS, VALUES), _history_categories(h, negate=True))
                 part.count("reciprocal_states")
                 if sum(1 for _c, _u, e in algebra.key_of(rec.GetQuantity()) if e < 0) >= 2 and not any(e > 0 for _c, _u, e in algebra.key_of(rec.GetQuantity())):
                     part.add("nontrivial", ("reciprocal", algebra.key_of(rec.GetQuantity())))
@@ -225,14 +303,7 @@ def run(ctx):
         # the same exploration again in this process AFTER every simple table quantity has rendered all
         # its strings (table symbols such as m2, m/s, 1/s coincide with derived unit strings)
         worlds.clear_caches(db)
-        for u, info in db.unit_to_unit_info.items():
-            for c in [db.GetDefaultCategory(u)] + ([info.quantity_type] if db.IsValidCategory(info.quantity_type) else []):
-                if c:
-                    try:
-                        q0 = ObtainQuantity(u, c)
-                        q0.GetUnitName(), q0.GetUnit(), q0.GetCategory(), q0.GetQuantityType(), str(Scalar(q0, 1.0)), repr(Scalar(q0, 1.0)), str(Array(q0, [1.0]))
-                    except Exception:
-                        pass
+        _render_simple(part, db, "after the derived quantities")
         # ... and after DERIVED quantities whose composing units are compound table symbols that render the
         # same text as products of atoms (area m2 per second -> 'm2/s', velocity m/s times kg -> 'm/s.kg')
         compound = [("m2", "area"), ("cm2", "area"), ("m3", "volume"), ("m/s", "velocity"), ("1/s", "frequency"), ("kg/m3", "density"), ("m/s2", "acceleration linear")]
@@ -256,15 +327,13 @@ def run(ctx):
         part.sample({"history": algebra.describe(deepest.history, BASIS, VALUES), "unit": deepest.scalar.GetUnit(), "category": deepest.scalar.GetCategory(), "quantity_type": deepest.scalar.GetQuantityType(), "unit_name": deepest.scalar.GetUnitName()})
         for st in graph[40:44]:
             part.sample({"history": algebra.describe(st.history, BASIS, VALUES), "unit": st.scalar.GetUnit(), "category": st.scalar.GetCategory()}, cap=5)
-        qts = sorted(db.GetQuantityTypes(), key=lambda q: -len(db.GetUnits(q)))
     _registration_strings(part, 4 if ctx.thorough else 3)
-    run_sharded(ctx, _simple_task, [qts[i::16] for i in range(16)])
     ctx.level = "model_checking"
     ctx.states = len(graph)
     ctx.transitions = transitions + part.counters.get("simple", 0)
     ctx.traces = ctx.transitions
     ctx.rule = (
-        "BFS (twice: on a cold database and after every simple table quantity has rendered its strings) over products/quotients from %d atomic (category, unit) atoms and their reciprocals to depth %d, every transition's result and its reciprocal (1.0 / state) parsed back; plus every (unit, category) "
+        "BFS (three times: on a cold database, after every simple table quantity has rendered its strings - judged too -, and to depth-1 in a fresh process where the simple quantities render first) over products/quotients from %d atomic (category, unit) atoms and their reciprocals to depth %d, every transition's result and its reciprocal (1.0 / state) parsed back; plus every (unit, category) "
         "of the table as a simple quantity; non-trivial = distinct composing maps with at least two denominator factors; outcomes = distinct unit strings"
         % (len(BASIS), depth)
     )
